@@ -14,7 +14,7 @@ CLAIMED = {
     technique="static interprocedural taint (value-flow) analysis over SSA with call/return matching; sanitiser-before-sink",
     ref="DESIGN.md §4 C01"),
   "C03": dict(
-    text="Static path/dominance analysis of jtp.Get and its helpers over SSA: every return of the fetcher is classified (error / cache hit / forwarded recursive result / success) and the success return is shown to be dominated, in order, by the https test, the dial, a checked status-line parse, a status whitelist within 200..203 on every enumerated path, a checked validateHeaders on the request's own tolerated list, and a checked JSON decode of the same stream into the very map returned, with the frame's own URL as source. The redirect budget is shown to strictly decrease under a non-exhaustion guard (one dial and one write per frame, constant budget at call sites), Location is shown to be resolved against the issuing URL with missing Location an error, the content-type rule (at least one tolerated, none untolerated) is checked on validateHeaders' flag protocol, the status regexp's shape is checked with regexp/syntax, and the cache is shown to be keyed by every request-shaping parameter and never to store an outcome with a possibly non-nil error. These are all-paths statements about the code, so they cover every response byte stream and redirect graph.",
+    text="Static path/dominance analysis of jtp.Get and its helpers over SSA: every return of the fetcher is classified (error / cache hit / forwarded recursive result / success) and the success return is shown to be dominated, in order, by the https test, the dial, a checked status-line parse, a status whitelist within 200..203 on every enumerated path, a checked validateHeaders on the request's own tolerated list, and a checked JSON decode of the same stream into the very map returned, with the frame's own URL as source. The redirect budget is shown to strictly decrease under a non-exhaustion guard (one dial and one write per frame, constant budget at call sites), Location is shown to be resolved against the issuing URL with missing Location an error, the content-type rule (at least one tolerated, none untolerated) is checked on validateHeaders' flag protocol, the status regexp's shape is checked with regexp/syntax, the cache is shown to be keyed by every request-shaping parameter, with the complete URL (link.String(): scheme and fragment included) inside the key, and never to store an outcome with a possibly non-nil error; and every string handed to a status/header recogniser or compared with the end-of-head marker is shown to be a complete line: result #0 of (*bufio.Reader).ReadString('\\n') (or a constant) at a point where that call's error is known nil, so a fragment of an over-long or truncated line is never parsed as a header. These are all-paths statements about the code, so they cover every response byte stream and redirect graph.",
     note="Trusted: regexp, encoding/json, net/url, lru semantics. Not decided: that the header regexps recognise exactly the HTTP grammar; JSON decoding itself; LRU eviction; behaviour under concurrent identical fetches (singleflight).",
     technique="static must-pass-through (dominance + path enumeration) and table/shape rules over SSA",
     ref="DESIGN.md §4 C03"),
@@ -24,12 +24,12 @@ CLAIMED = {
     technique="static call-site inventory (who-may-call), symbolic string template evaluation, backward provenance over the value-flow graph",
     ref="DESIGN.md §4 C04"),
   "C05": dict(
-    text="Static typestate and error-discipline analysis: for every connection value obtained from net/crypto/tls, every Write/Read/hand-off is shown to be dominated by a Set*Deadline call on that value whose argument is derived (backward value-flow) from time.Now() and config.Parsed.Network.Timeout and which is not renewed in a loop; for all ~210 error-returning calls in jtp, client, object, pub and mime the error is shown to be returned, wrapped, converted to a failure item, stored beside its value or classified, and the accompanying values to be used only where the error is known nil (branch facts) or to travel with it; every NewFailure argument is shown non-nil. An all-paths argument: it holds for every cut point and stall stage because no path can read without a deadline or drop an error.",
+    text="Static typestate and error-discipline analysis: for every connection value obtained from net/crypto/tls, every Write/Read/hand-off is shown to be dominated by a Set*Deadline call on that value whose argument is derived (backward value-flow) from time.Now() and config.Parsed.Network.Timeout and which is not renewed in a loop; for all ~210 error-returning calls in jtp, client, object, pub and mime the error is shown to be returned, wrapped, converted to a failure item, stored beside its value or classified, and the accompanying values to be used only where the error is known nil (branch facts) or to travel with it; every NewFailure argument is shown non-nil; the response head is parsed from complete lines only (ReadString('\\n') with its error known nil at every use, rule shared with C03.R7), so a head cut off or stalled inside a line ends in an error instead of being acted on. An all-paths argument: it holds for every cut point and stall stage because no path can read without a deadline or drop an error.",
     note="Trusted: net.Conn deadline semantics, json.Decoder rejecting truncated objects. Not decided: wall-clock bounds, kernel/TLS behaviour, non-positive configured timeouts (C19).",
     technique="static typestate (deadline-before-I/O dominance) + error-flow discipline over SSA with branch facts",
     ref="DESIGN.md §4 C05"),
   "C08": dict(
-    text="Whole-program static lock-state dataflow (held / caller's / not held, defer-aware) over go/ssa with the VTA call graph, plus an effects (write-set) analysis of fan-out goroutines: every access to UI state, every emitted frame and every render-cache write is shown to happen with State.m held on every path; lock pairing, non-reentrancy, WaitGroup balance, pairwise disjoint write sets of concurrently running closures and read-only sharing of documents/configuration are decided for every function of the module. All paths and all schedules are covered because the rule is a must-analysis over the code, not a sample of executions.",
+    text="Whole-program static lock-state dataflow (held / caller's / not held, defer-aware) over go/ssa with the VTA call graph, plus an effects (write-set) analysis of fan-out goroutines: every access to UI state, every emitted frame and every render-cache write is shown to happen with State.m held on every path; lock pairing, non-reentrancy, WaitGroup balance, pairwise disjoint write sets of concurrently running closures and read-only sharing of documents/configuration are decided for every function of the module; every store into a field of a pub item type (Post, Actor, Activity, Collection, Link, Failure) is shown to target the object the enclosing constructor has just allocated, so items, which loader goroutines read outside State.m and pages share, are never written after construction. All paths and all schedules are covered because the rule is a must-analysis over the code, not a sample of executions.",
     note="Trusted: go/types+go/ssa+VTA (x/tools v0.29.0), sync primitives, lru.Cache and singleflight.Group being internally synchronised, library callbacks being synchronous. Not decided: liveness under real schedulers, races inside dependencies, the deliberate lock hold on a failing sub-command.",
     technique="static lock-state must-dataflow + write-set (effects) disjointness over SSA and the VTA call graph",
     ref="DESIGN.md §4 C08"),
@@ -55,9 +55,9 @@ CLAIMED.update({
 
 CLAIMED.update({
   "C11": dict(
-    text="Structural clauses of the feed property, decided statically: a module-wide nil-flow analysis shows that no pointer that may be nil is converted into a pub.Container / pub.Tangible / Any interface at any point where the interface escapes (returned, stored, passed on), using branch facts, value+error producer soundness and an assume-guarantee invariant for dynamically dispatched receivers — so an exhausted feed ends with a real nil; NewSplicer's type switch is compared with the set of dynamic types that can reach FetchUserInput's result in the value-flow graph; an effects analysis shows Splicer.Harvest never writes through its receiver. The merge order / exactly-once clauses are NOT claimed.",
-    note="Not decided (stated in DESIGN.md and in the evidence): newest-first merge order, exactly-once, tie-breaking, idempotence as values. Fan-out race freedom is decided under C08.R5.",
-    technique="static nil-flow (typed-nil) analysis with branch facts, dynamic-type set vs. type-switch table agreement, write-set analysis",
+    text="Structural clauses of the feed property, decided statically: a module-wide nil-flow analysis shows that no pointer that may be nil is converted into a pub.Container / pub.Tangible / Any interface at any point where the interface escapes (returned, stored, passed on), using branch facts, value+error producer soundness and an assume-guarantee invariant for dynamically dispatched receivers — so an exhausted feed ends with a real nil; NewSplicer's type switch is compared with the set of dynamic types that can reach FetchUserInput's result in the value-flow graph; an effects analysis shows Splicer.Harvest never writes through its receiver and that buffered items shared with clones are never written in place; replenish is shown to visit every source and to refill exactly the sources whose own buffer is shorter than the requested depth, by the difference; every trip round microharvest's selection loop (all acyclic header-to-header paths, loop-carried values resolved along the path) is classified as keeping the best (allowed only for an empty source / nil head, or an existing best whose timestamp the head's is not After) or replacing it by the current head (only with no best yet, or strictly After: ties stay with the source listed first), nil is returned only where the best is known nil, and the popped source is the one recorded with the best. That these steps compose to an exactly-once merge for every chunking is NOT claimed.",
+    note="Not decided (stated in DESIGN.md and in the evidence): exactly-once and idempotence of a feed position as values over all chunkings; only the per-step selection rule, the refill rule and the no-write/clone discipline are decided. Fan-out race freedom is decided under C08.R5.",
+    technique="static nil-flow (typed-nil) analysis with branch facts, dynamic-type set vs. type-switch table agreement, write-set analysis, loop path enumeration with phi resolution (selection step)",
     ref="DESIGN.md §4 C11"),
   "C12": dict(
     text="Structural clauses of link numbering, decided statically: for every label call (style.Link / LinkBlock) in the three markup renderers the printed number is shown to be len(list) taken after the label's own append with no intervening call that can (transitively) append to the list, and every append to have exactly one label; attachment labels and SelectLink's index expressions are normalised to linear forms and composed to the identity; text and link list are shown to come from one GetMarkup call; every index in the SelectLink implementations is proven within bounds from the branch facts by a small linear-inequality prover; Markdown forwards the HTML link list. Survival of superscripts through wrapping is NOT claimed.",
@@ -86,7 +86,7 @@ CLAIMED.update({
 
 CLAIMED.update({
   "C10": dict(
-    text="Structural clauses of collection paging, decided statically on harvestWithEmptyCount and its two goroutine closures: the single recursion is shown to be dominated by the false edge of emptyCount > 3 on the very counter cell that is passed on, the counter to be incremented exactly on the page-is-empty edge, every early return to deliver one failure item with a nil continuation; all paths to the recursive spawn are enumerated and on each that does not increment the counter the last assignment is shown to be a constant (consecutive = reset); slot k is shown to receive construct(c.elements[k+startingPoint], c.id) by comparing linear index forms, the result to be this page's slice followed by the recursion's slice, the next page (built from c.next with checked error) to be asked for amount-amountFromThisPage from offset 0; the page names itself as continuation only under length > amount+startingPoint with resume offset amount+startingPoint, otherwise forwards the deeper continuation or nil. Exactly-once over all layouts is NOT claimed.",
+    text="Structural clauses of collection paging, decided statically on harvestWithEmptyCount and its two goroutine closures: the single recursion is shown to be dominated by the false edge of emptyCount > 3 on the very counter cell that is passed on, the counter to be incremented exactly on the page-is-empty edge, every early return to deliver one failure item with a nil continuation; all paths to the recursive spawn are enumerated and on each that does not increment the counter the last assignment is shown to be a constant (consecutive = reset); slot k is shown to receive construct(c.elements[k+startingPoint], c.id) by comparing linear index forms, the result to be this page's slice followed by the recursion's slice, the next page (built from c.next with checked error) to be asked for amount-amountFromThisPage from offset 0; the page names itself as continuation only under length > amount+startingPoint with resume offset amount+startingPoint, otherwise forwards the deeper continuation or nil; in the constructor every path to a store of the following-page link is enumerated and the key read (first / next) is shown to agree with the kind tests passed on that path (first only for (Ordered)Collection, next only for pages). Exactly-once over all layouts is NOT claimed.",
     note="Not decided: that the pieces compose to exactly-once/in-order for every layout and chunking, prefix-of-truth on cyclic chains, unsigned arithmetic of amountFromThisPage. Fan-out race freedom: C08.R5.",
     technique="static dominance and path enumeration (counter discipline), linear-form index agreement, continuation-shape matching over SSA",
     ref="DESIGN.md §4 C10"),
@@ -94,8 +94,8 @@ CLAIMED.update({
 
 CLAIMED.update({
   "C06": dict(
-    text="Crash clause only, decided by static obligation classes over every function of the packages below the UI: K1 every type assertion is comma-ok or provably holds; K2 every dereference of the value of a value+Err pair is dominated by its error being nil and every producer stored into a pair is shown to return non-nil with a nil error (including slices whose every slot is filled by a checked constructor); K3 every strings.Repeat count, make size, non-constant index and slice bound that can depend on a width parameter or link number (forward value flow from all String/Preview/Render/SelectLink parameters) is proven in range from branch facts by a linear-inequality prover; K4 every index into a regexp match is checked against the pattern's capture structure (regexp/syntax) and shown guarded by a length test, a total pattern or FindAll, and first-rune extraction only on non-empty captures; K5 every explicit panic is discharged (non-negative labels into superscript, accepted Activity kinds ⊆ rendered kinds, non-nil harvest receivers, non-nil NewFailure arguments); K7 every call-graph SCC is in a table of recursions with a checked termination measure. The hang / resource clause is NOT claimed.",
-    note="Not decided: the hang/memory clause (cost of nested indenting blocks — the property text records that the tree violates it with ~82 nested blockquotes; no sound static cost analysis is in reach), nil dereferences outside K2/K6, and ~15 bounds checks resting on relational invariants, listed in the evidence as unclaimed sites. K6 (typed nil) is decided under C11.R1.",
+    text="Crash clause only, decided by static obligation classes over every function of the packages below the UI: K1 every type assertion is comma-ok or provably holds; K2 every dereference of the value of a value+Err pair is dominated by its error being nil and every producer stored into a pair is shown to return non-nil with a nil error (including slices whose every slot is filled by a checked constructor); K3 every strings.Repeat count, make size, non-constant index and slice bound that can depend on a width parameter or link number (forward value flow from all String/Preview/Render/SelectLink parameters) is proven in range from branch facts by a linear-inequality prover; K4 every index into a regexp match is checked against the pattern's capture structure (regexp/syntax) and shown guarded by a length test, a total pattern or FindAll, and first-rune extraction only on non-empty captures; K5 every explicit panic is discharged (non-negative labels into superscript, accepted Activity kinds ⊆ rendered kinds, non-nil harvest receivers, non-nil NewFailure arguments); K7 every call-graph SCC is in a table of recursions with a checked termination measure; K8 every dereference of a *url.URL anywhere in the module (field read or net/url method call; identifiers can be absent, so these pointers can be nil) is shown to be at a point where the pointer is provably non-nil — a dominating nil test, a checked url.Parse / ResolveReference result, the source of a successful fetch, or a parameter that every call site provides non-nil (assume-guarantee over the call graph, including (value, found, error) producers). The hang / resource clause is NOT claimed.",
+    note="Not decided: the hang/memory clause (cost of nested indenting blocks — the property text records that the tree violates it with ~82 nested blockquotes; no sound static cost analysis is in reach), nil dereferences outside K2/K6/K8, and ~15 bounds checks resting on relational invariants, listed in the evidence as unclaimed sites. K6 (typed nil) is decided under C11.R1.",
     technique="static may-panic site enumeration with per-class discharge: branch facts + linear inequalities, regexp/syntax shape analysis, nil-flow, call-graph SCC table",
     ref="DESIGN.md §4 C06"),
   "C07": dict(
